@@ -1,5 +1,5 @@
 //! Scenario generators. Everything that varies is drawn from the world's choice stream.
-use crate::common::{boot_server, content, content_with_zero_runs, Sandbox, ServerCfg};
+use crate::common::{boot_server, content, content_texty, content_with_zero_runs, draw_mode, Sandbox, ServerCfg};
 use crate::peers::{Adv, Reader, Writer, XferCfg};
 use crate::world::{FaultCfg, Ns, World, MS, SEC};
 use crate::xfer_mon::{Kind, Rules, XferMon, XferSpec};
@@ -359,6 +359,21 @@ pub fn xfer(prop: &'static str, tier: Tier, w: &Arc<World>) -> Scn {
         len = 65536 * 8 + d.pick("swarm.wrap.extra", &[5usize, 0, 8, 30]);
         wrap_class = true;
     }
+    let mut isolated_class = false;
+    if prop == "C04" && !wrap_class && d.chance("swarm.isolated_losses", 1, 12) {
+        // a long lock-step or small-window transfer for "many single losses, each one recovered from"
+        let b = d.pick("swarm.isolated.blksize", &[16usize, 64, 512]);
+        let wz = d.pick("swarm.isolated.windowsize", &[1u64, 2, 3, 1]);
+        oc0.opts = vec![("blksize".into(), b.to_string()), ("windowsize".into(), wz.to_string()), ("timeout".into(), "1".into())];
+        if b == 512 && wz == 1 && d.chance("swarm.isolated.no_options", 1, 2) {
+            oc0.opts.clear();
+        }
+        oc0.b = b;
+        oc0.w = wz;
+        oc0.tmo_s = if oc0.opts.is_empty() { 5 } else { 1 };
+        len = b * (40 + d.range("swarm.isolated.blocks", 40) as usize) + d.pick("swarm.isolated.tail", &[7usize, 0, 15]);
+        isolated_class = true;
+    }
     let mut stray_at: Option<(u64, u8)> = None;
     if prop == "C02" && d.chance("swarm.wrap_class", 1, if tier == Tier::Thorough { 900 } else { 3500 }) {
         // uploads across the 16-bit wrap with a stray packet in the middle of the window that holds block 65536
@@ -437,7 +452,16 @@ pub fn xfer(prop: &'static str, tier: Tier, w: &Arc<World>) -> Scn {
     }
     let mut xc_no_resend = false;
     let salt = 1 + d.range("swarm.content.salt", 250) as u64;
-    let data = Arc::new(if (prop == "C01" || prop == "C02") && d.chance("swarm.content.zero_runs", 1, 8) { content_with_zero_runs(len, salt, oc.b) } else { content(len, salt) });
+    // the mode string of the request: the server moves octets whatever the request calls them
+    let mode = if d.chance("swarm.mode.varied", 1, 6) { draw_mode(d.range("swarm.mode", 12)) } else { "octet" };
+    let texty = d.chance("swarm.content.texty", 1, if mode.eq_ignore_ascii_case("octet") { 24 } else { 2 });
+    let data = Arc::new(if texty {
+        content_texty(len, salt, oc.b)
+    } else if (prop == "C01" || prop == "C02") && d.chance("swarm.content.zero_runs", 1, 8) {
+        content_with_zero_runs(len, salt, oc.b)
+    } else {
+        content(len, salt)
+    });
     let fname = "data.bin";
     let path = dir.join(fname);
     if kind == Kind::Download {
@@ -456,6 +480,11 @@ pub fn xfer(prop: &'static str, tier: Tier, w: &Arc<World>) -> Scn {
     let server_addr = srv.addr();
     let mut xc = XferCfg::new(server_addr, fname);
     xc.opts = oc.opts.clone();
+    xc.mode = mode.to_string();
+    if prop == "C02" && d.chance("swarm.writer.late_error", 1, 12) {
+        // a client that sends an ERROR after its upload was acknowledged in full: the file stays
+        xc.late_error = Some(d.pick("swarm.writer.late_error.code", &[0u16, 5]));
+    }
     xc.timeout_ns = peer_timeout(&d, oc.tmo_s);
     xc.per_block_ack = d.chance("swarm.reader.per_block_ack", 1, 5);
     xc.gap_ack = !d.chance("swarm.reader.no_gap_ack", 1, 4);
@@ -540,6 +569,21 @@ pub fn xfer(prop: &'static str, tier: Tier, w: &Arc<World>) -> Scn {
                 fc.stall_w = if d.chance("swarm.fault.stall", 1, 5) { 10 } else { 0 };
                 fc.late_w = if d.chance("swarm.fault.lateness", 1, 3) { [2, 1, 1] } else { [1, 0, 0] };
             }
+            if isolated_class {
+                // six to ten single losses, each in an exchange of its own and each recovered from before
+                // the next: never two failed receives in a row, so every one of them must be survived
+                fc.fate_w = [1, 0, 0, 0, 0, 0];
+                fc.recv_err_w = 0;
+                fc.stall_w = 0;
+                fc.budget = 0;
+                faultfree = false;
+                let per_window = oc.w + 1;
+                let mut pos = 1 + d.range("swarm.isolated.first", 2 * per_window as u32) as u64;
+                for _ in 0..6 + d.range("swarm.isolated.count", 5) {
+                    fc.forced_list.push((pos, crate::world::Fate::Drop));
+                    pos += 2 * per_window + 3 + d.range("swarm.isolated.jitter", 4) as u64;
+                }
+            }
             if wrap_class {
                 // one loss, forced onto a datagram numbered around the wrap
                 fc.fate_w = [1, 0, 0, 0, 0, 0];
@@ -623,6 +667,10 @@ pub fn xfer(prop: &'static str, tier: Tier, w: &Arc<World>) -> Scn {
                         };
                         xc.script.push((step, a));
                     }
+                    // several identical duplicates in a row (a peer whose ACK was multiplied on the way)
+                    if d.chance("swarm.adv.dup_ack_burst", 1, 4) {
+                        xc.dup_ack_burst = 2 + d.range("swarm.adv.dup_ack_burst.n", 4);
+                    }
                 }
             }
             if full_window && oc.w == 65535 {
@@ -660,7 +708,7 @@ pub fn xfer(prop: &'static str, tier: Tier, w: &Arc<World>) -> Scn {
         xc.script.clear();
     }
     let desc = format!(
-        "{:?} {} len={} blocks={} opts={:?} dup={} peer[timeout={}ms per_block={} gap_ack={} eager={} dally={} script={:?}] faults[budget={} fates={:?} recv_err={} stall={}]",
+        "{:?} {} mode={mode} len={} blocks={} opts={:?} dup={} peer[timeout={}ms per_block={} gap_ack={} eager={} dally={} script={:?}] faults[budget={} fates={:?} recv_err={} stall={}]",
         kind,
         srv.describe(),
         len,
@@ -693,9 +741,19 @@ pub fn xfer(prop: &'static str, tier: Tier, w: &Arc<World>) -> Scn {
     let mut bystander = None;
     if (prop == "C01" || prop == "C02" || (prop == "C07" && conformant && !wrap_class)) && d.chance("swarm.bystander", 1, 4) {
         // another client fetches a small file with default options while the main transfer runs
-        let (bp, spec) = add_bystander(&d, w, &srv, &dir);
-        specs.push(spec);
-        bystander = Some(bp);
+        if kind == Kind::Download && !wrap_class && !full_window && len <= 200_000 && d.chance("swarm.bystander.same_file", 1, 2) {
+            // ... or the very same file: two transfers of one file overlap and each reads it on its own
+            let mut xb = XferCfg::new(srv.addr(), fname);
+            xb.resend_request = false;
+            let (p, c) = w.add_peer(Box::new(Reader::new(xb)), srv.v6, 0);
+            let at = 10 * MS + d.range("bystander.start_us", 1500) as Ns * 1000;
+            specs.push(XferSpec { client: c, peer: p, kind: Kind::Download, content: data.clone(), path: specs[0].path.clone(), conformant: true, dally: true, timeout_ratio: 1 });
+            bystander = Some((p, at));
+        } else {
+            let (bp, spec) = add_bystander(&d, w, &srv, &dir);
+            specs.push(spec);
+            bystander = Some(bp);
+        }
     }
     w.add_monitor(Box::new(XferMon::new(prop, rules, specs, dupn)));
     boot_server(w, &srv).expect("server config");
